@@ -208,6 +208,9 @@ def enabled_events(tracks, w, kinds=None):
             for tid in cand_tids[:3]:
                 ev.append(("add_node", nid, 1, tid, True, "no_pos", None))
                 ev.append(("add_node", nid, 2, tid, False, "no_pos", None))
+                for t in (1, 2):
+                    ev.append(("add_node", nid, t, tid, True, "pix_noseg", None))
+                    ev.append(("add_node", nid, t, tid, False, "pix_noseg", None))
                 if w["pos"] == "axes":
                     # only one of the per-axis position keys is given
                     ev.append(("add_node", nid, 1, tid, True, "part_pos", None))
@@ -428,6 +431,10 @@ def apply_event(tracks, w, ev, restore_on_refusal=True) -> Outcome:
                         attrs[k] = [0.0] * feat["num_values"] if feat["num_values"] > 1 else 999.0
             if w["seg"] and pix is not None:
                 pixels = (np.full(len(pix[0]), t, dtype=np.int64), *[np.array(a, dtype=np.int64) for a in pix])
+            elif variant == "pix_noseg":
+                # a mask for tracks that have no label array: refused by AddNode itself, i.e. after
+                # the forced removal of conflicting edges
+                pixels = (np.array([t]), *[np.array([0]) for _ in range(w["ndim"] - 1)])
             elif variant != "no_pos":
                 p = new_pos(w, nid, t)
                 pk = tracks.features.position_key
